@@ -122,3 +122,33 @@ func VerifC14_MustFail() {
 	_ = krpc.Msg{}
 	verifAssert(v.sock.attempts <= 1 || !p.sent, "twin: a two-try query never sends a second datagram (must fail)")
 }
+
+// A reply that arrives while the query is being cancelled: every order of the caller's select, the
+// sender goroutine and the node's handling of the reply is explored (scheduler choices at every
+// blocking point). Whatever the order, the query returns and nothing is left behind.
+func VerifC14_LateReply() {
+	v := verifStartServer(verifSrvOpt{noSecurity: true})
+	ctx, cancel := context.WithCancel(context.Background())
+	dst := verifC07Addrs[0]
+	p := verifStartQuery(v, ctx, dst, "ping", QueryInput{})
+	if !p.sent {
+		cancel()
+		return
+	}
+	reply := verifEncode(verifReplyMsg(v, p.tid), 50)
+	if verifNondetBool() {
+		cancel()
+	} else {
+		verifFireTimers() // the time-out instead of a cancellation
+	}
+	v.sock.in <- verifDatagram{b: reply, n: -1, addr: dst}
+	verifQuiesce()
+	for i := 0; i < 2 && !p.done; i++ {
+		verifFireTimers()
+		verifQuiesce()
+	}
+	cancel()
+	verifAssert(p.done, "C14: the query returns whatever the order of cancellation, time-out and reply")
+	verifAssert(p.outstanding() == 0, "C14: no pending transaction is left behind")
+	verifReach("end")
+}
